@@ -60,6 +60,18 @@ CLAIMS.update({
          "all float results go through float_result; Div/Rem only after the divisor's zero tests; repeat count guarded.", "§4 C11"),
 })
 
+CLAIMS.update({
+ "C01": ("agreement analysis between type_info and resolve of every `impl Expression` (child-set comparison, effect pairing via P-EFFECT, taint through join functions, per-variant table)",
+         "R01a state threading, R01b mutator<->type-effect pairing, R01c join discipline (Details::merge), R01d literal base cases. Necessary conditions of type "
+         "soundness; found LocalEnv::merge, Return::type_info and del-on-local defects (fixed).", "§4 C01"),
+ "C08": ("P-VAR over Op::resolve and Variant::resolve with provenance classification of stored values; table agreement of DefaultValue",
+         "R08a-d: `??` evaluates rhs only on Err and returns Ok(lhs) unchanged; the four (outcome,target) stores of `ok, err =` and its result carry the defined "
+         "values; the stored default is default_value() of the expression type and is included in ok's type; default_value pairs each kind with a literal of that kind.", "§4 C08"),
+ "C12": ("effect pairing + join taint (shared with C01), opcode->method agreement of constant folding, who-may-consume table for resolve_constant",
+         "R12a-e: constant knowledge is invalidated wherever values are written, dropped at joins, folded with the same methods as at run time, never given to "
+         "iterating closure parameters, and consumed only by reviewed sites.", "§4 C12"),
+})
+
 NA = {}
 
 def main():
